@@ -25,6 +25,8 @@ Apply(s, e) ==
             IF e.panics # 0 THEN No(s, "a task panicked")
             ELSE IF ~e.closed THEN No(s, "the session is not visibly closed")
             ELSE IF e.w = "pending" THEN No(s, "a concurrent write never returned")
+            ELSE IF "w2" \in DOMAIN e /\ e.w2 = "pending" THEN No(s, "a second writer (an open queued behind a stalled write) never returned after the session was closed")
+            ELSE IF "w2" \in DOMAIN e /\ e.w2 = "ok" THEN No(s, "a second writer reported success on a transport that makes no progress")
             ELSE IF e.k = "pending" THEN No(s, "close() never returned")
             ELSE IF e.reader = "pending" THEN No(s, "a stream reader was never released")
             ELSE IF e.reader \notin {"eof", "err", "none"} THEN No(s, "a stream reader did not end with EOF or an error")
